@@ -44,3 +44,10 @@ func shortStack() string {
 func raceViolation(key, detail string) proto.Violation {
 	return proto.Violation{Key: key, Detail: detail, Replay: []byte(`{"race_pass":true}`), Sampled: true}
 }
+
+func max(a, b int) int {
+	if a > b {
+		return a
+	}
+	return b
+}
